@@ -58,13 +58,19 @@ def run(chk):
     chk.trust("specification generators in analysis/specs.py")
     chk.assume("operand tables are well formed (C02) and of the same size; size mismatches are C17")
     per_op = {}
-    for kind in ("dyn", "static"):
+    # the thorough tier also analyses the release configuration (debug assertions and overflow checks off)
+    runs = [("dyn", env, ""), ("static", env, "")]
+    if chk.tier == "thorough":
+        env_rel = Env(F.load("rel"))
+        runs += [("dyn", env_rel, " [rel]"), ("static", env_rel, " [rel]")]
+    for kind, env, tag in runs:
         K = env.kinds[kind]
         forms = discover_forms(env, kind)
         for b, op, ar, inplace, label in forms:
-            per_op[(kind, op)] = per_op.get((kind, op), 0) + 1
+            if not tag:
+                per_op[(kind, op)] = per_op.get((kind, op), 0) + 1
             for n in range(0, (14 if chk.tier == "thorough" and kind == "dyn" else nmax) + 1):
-                key = "%s n=%d" % (label, n)
+                key = "%s n=%d%s" % (label, n, tag)
                 try:
                     it, outs, ops = call_with_tables(env, kind, b, n, ["a", "b"])
                     o, v, d = single_return(outs)
@@ -88,6 +94,34 @@ def run(chk):
                     v, d = UNDECIDED, e.cause
                 chk.add("C01.K", key, v, d, where=where_of(b),
                         sample=dict(form=label, n=n, operator=op, verdict=v) if n == 3 and len(chk.samples) < 10 else None)
+    # C01.A: both operands the *same object* (`&a op &a`): forms taking two shared references must not rely on the
+    # operands being distinct (a op a: and/or give a, xor gives the constant zero)
+    for kind, env_, tag in runs:
+        if tag:
+            continue
+        K = env_.kinds[kind]
+        for b, op, ar, inplace, label in discover_forms(env_, kind):
+            ins = b["sig"]["inputs"]
+            if ar != 2 or inplace or not all(t_["k"] == "ref" and not t_["mut"] for t_ in ins):
+                continue
+            for n in (0, 3, 6, 7):
+                key = "%s n=%d with both operands the same object" % (label, n)
+                try:
+                    it = env_.interp()
+                    st = State()
+                    pa = K.place(st, K.mk(st, n, sym_words(n, "a")))
+                    outs = it.call_body(b, [pa, pa], st, K.env(n))
+                    o, v, d = single_return(outs)
+                    if o is not None:
+                        exp = S.const(n, 0) if op == "xor" else S.identity(n, "a")
+                        v, d = check_table_value(env_, kind, it, o.state, o.value, n, exp, o.pc)
+                        d = d and "a %s a with both references to one object: %s" % (op, d)
+                        if v == PROVED:
+                            v, d = check_table_value(env_, kind, it, o.state, it.read_ptr(o.state, pa), n, S.identity(n, "a"), o.pc)
+                            d = d and "the shared operand is modified: " + d
+                except Undecided as e:
+                    v, d = UNDECIDED, e.cause
+                chk.add("C01.A", key, v, d, where=where_of(b))
     # C01.F: sibling count per operator (pinned: not 4 forms, and/or/xor 8 forms each, per type)
     for kind in ("dyn", "static"):
         for op, fl in (("not", 4), ("and", 8), ("or", 8), ("xor", 8)):
